@@ -591,3 +591,22 @@ Lemma spec_strip_shortif_refuted :
   | _, _ => False
   end.
 Proof. vm_compute. repeat split; reflexivity. Qed.
+
+(* the per-entry conditions of C14_tokens_spec_any_newline for a package embedded WITHOUT its game loop, in the
+   vocabulary of that theorem (lexes / toks over sig_views) *)
+From PV Require Import Proofs.ReqEmbedProofs.
+Theorem stripped_pkg_conditions c ss0 q q' :
+  Forall byte c -> spec_lex c = Some ss0 -> from_lines (file_lines c) = Ok q -> strip_lua q = Ok q' ->
+  lexes (Z * list Z * Z * Z * Z) sig_views (concat (ReqEmbedInst.echo_lines q')) /\
+  good_lines (ReqEmbedInst.echo_lines q') /\
+  (exists ranges, strip_ranges (rev' (root_stats (l_root q))) (l_toks q) = Ok ranges /\
+     toks (Z * list Z * Z * Z * Z) sig_views (concat (ReqEmbedInst.echo_lines q')) = map tview (nontriv (drops (map unpos ss0) ranges))) /\
+  (fully_parsed q = true -> shortif_clean (l_root q) = true ->
+   toks (Z * list Z * Z * Z * Z) sig_views (concat (ReqEmbedInst.echo_lines q')) = map tview (spec_strip (nontriv (map unpos ss0)))).
+Proof.
+  intros HB Es Hq Hs. destruct (stripped_pkg_ranges c ss0 q q' HB Es Hq Hs) as (ranges & Hr & Hv & Hg).
+  split; [unfold lexes; rewrite Hv; discriminate|]. split; [exact Hg|]. split.
+  - exists ranges. split; [exact Hr|]. unfold toks. rewrite Hv. reflexivity.
+  - intros Hf Hc. destruct (stripped_pkg_full c ss0 q q' HB Es Hq Hs Hf Hc) as [Hv2 _]. unfold toks. rewrite Hv2. reflexivity.
+Qed.
+Print Assumptions stripped_pkg_conditions.
